@@ -207,6 +207,23 @@ def c10_documents(run):
                 kind, r = outcome(E, v)
                 if kind == "error":
                     acc.fail(key, f"{type(r).__name__} escaped: {str(r)[:120]}", extra={"tags": ["D30-shape"] if isinstance(r, ValueError) and "4300" in str(r) else []})
+        # the same limit on the schema side: keyword values with more than 4300 digits (metaschema-valid numbers)
+        for S in [{"maximum": big}, {"minimum": -big}, {"exclusiveMaximum": big}, {"multipleOf": big}, {"const": big}, {"enum": [big, "a"]},
+                  {"properties": {"a": {"maximum": big}}}, {"items": {"const": big}}, {"type": "integer", "default": big}, {"maxLength": big},
+                  {"minItems": big}, {"anyOf": [{"const": big}, {"type": "string"}]}]:
+            for label, v in (("10**5001", big * 10), ("-10**5001", -big * 10), ("'x'", "x"), ("1", 1), ("[1]", [1]), ("{'a': 10**5001}", {"a": big * 10}), ("[10**5001]", [big * 10])):
+                key = f"{{{', '.join(repr(k) + ': ...' for k in S)}}} with a 5001-digit literal <- {label}"
+                acc.case(key)
+                try:
+                    E = parse_element(copy.deepcopy(S))
+                except Exception as ex:
+                    from statham.schema.exceptions import SchemaParseError as _SPE
+                    if not isinstance(ex, _SPE):
+                        acc.fail(key, f"parse_element raised {type(ex).__name__}: {str(ex)[:100]}")
+                    continue
+                kind, r = outcome(E, v)
+                if kind == "error":
+                    acc.fail(key, f"{type(r).__name__} escaped: {str(r)[:120]}")
         nested = 1
         for _ in range(200):
             nested = [nested]
